@@ -172,14 +172,17 @@ def ge (x y : Num) : Bool :=
   | .rat a1 a2 b1 b2 => decide (a1 * b2 ≥ b1 * a2)
   | .real a b => a ≥ b
 
-/-- one step of `first_of_order!(max, >)`: `if a > b {operand.lhs()} else {operand.rhs()}` -/
+/-- one step of `first_of_order!(max, >)`: the kept operand is re-promoted (`lhs()`/`rhs()` of the
+upcast pair) only when the pair is inexact; otherwise it is the argument itself. -/
 def maxStep (a b : Num) : Num :=
-  let p := upcast a b
-  if gt a b then p.lhs else p.rhs
+  match upcast a b with
+  | .real x y => if gt a b then .real x else .real y
+  | _ => if gt a b then a else b
 
 def minStep (a b : Num) : Num :=
-  let p := upcast a b
-  if lt a b then p.lhs else p.rhs
+  match upcast a b with
+  | .real x y => if lt a b then .real x else .real y
+  | _ => if lt a b then a else b
 
 /-! ### n-ary builtins of `base.rs`, on argument lists that are already numbers
 (the interleaved `expect_number` type checks are in `RuschmModel/Prim.lean`). -/
@@ -217,7 +220,7 @@ def minAll : List Num → Except Err Num
 def canon : Num → String
   | .int i => "i:" ++ toString i
   | .rat n d => "q:" ++ toString n ++ "/" ++ toString d
-  | .real r => "r:" ++ toString r.toBits.toNat
+  | .real r => if r.isNaN then "r:nan" else "r:" ++ toString r.toBits.toNat
 
 end Num
 end Ruschm
